@@ -450,7 +450,11 @@ func (c *client) handleSignalMessage(runtimeMessage DecodedRuntimeMessage) {
 	}
 	c.logger.Debugf("Got signal from step with run ID '%s' with ID '%s'", runtimeMessage.RunID,
 		signalMessage.SignalID)
-	signalChannel <- signalMessage.ToInput(runtimeMessage.RunID)
+	select {
+	case signalChannel <- signalMessage.ToInput(runtimeMessage.RunID):
+	case <-c.context.Done():
+		// Close was called. The caller may have stopped listening; do not keep the read loop, and Close with it, waiting.
+	}
 }
 
 // Returns true if the error is fatal.
